@@ -121,10 +121,14 @@ func (h *H) stopDaemons() {
 func (h *H) daemonDynamics(workload bool) {
 	w := h.W
 	w.IdleEvery = time.Second
+	tickNo := 0
 	w.OnIdle = func() {
+		tickNo++
 		for _, x := range h.Spec.AllHosts() {
 			w.Replicate(x)
-			w.Apply(x)
+			if tickNo%2 == 0 { // SQL threads trail the IO threads: received-but-unapplied tails exist half of the time
+				w.Apply(x)
+			}
 		}
 		if workload {
 			for _, x := range h.Spec.HA {
